@@ -102,7 +102,8 @@ def _pts(name, rng, thorough):
 BIN_PTS = {
     'atan2': [(1, 1), (1, -1), (-1, -1), (-1, 1), (1, 2), (3, -4), (0, 1), (1, 1000), (1000, 1), (-5, 12), (1, 3), (7, 2)],
     'hypot': [(3, 4), (5, 12), (1, 1), (1000, 1), (1, 1000), (8, 15), (-3, 4), (7, 24), (1, 3), (100000, 100000)],
-    'powf': [(2, 10), (2, -3), (10, 3), (4, 1), (9, 2), (3, 3), (5, 2), (7, 1), (2, 20), (10, -2)],
+    'powf': [(2, 10), (2, -3), (10, 3), (4, 1), (9, 2), (3, 3), (5, 2), (7, 1), (2, 20), (10, -2),
+             (-2, -3), (-1, -1), (-1, -3), (-2, 3), (-3, 2), (-2, -2), (-5, 1), (-2, 10), (-10, -5), (1, 100), (2, 0), (0, 3)],
 }
 BIN_FRAC = {'powf': [(Fraction(2), Fraction(1, 2)), (Fraction(3, 2), Fraction(5, 2)), (Fraction(1, 2), Fraction(20)), (Fraction(9), Fraction(1, 2)), (Fraction(10), Fraction(-7, 2))]}
 
